@@ -71,7 +71,8 @@ def project_st(draw):
                  draw(st.sampled_from(["Common heading", f"Section one D{i}"]))]
         heads = heads[:draw(st.integers(2, 4))]
         # base names may repeat across directories ('a/intro' next to 'intro'): extension-less links are relative to the page
-        base = draw(st.sampled_from([f"doc{i}", f"doc{i}", "intro", "guide"]))
+        # ... and may equal the name of a directory next to them ('a.md' beside 'a/'): a directory is not a document
+        base = draw(st.sampled_from([f"doc{i}", f"doc{i}", "intro", "guide", "a", "b", "d"]))
         name = posixpath.join(d, base) if d else base
         if any(x["name"] == name for x in docs):
             name = posixpath.join(d, f"doc{i}") if d else f"doc{i}"
@@ -85,7 +86,7 @@ def project_st(draw):
     for k in range(draw(st.integers(4, 14))):
         src = draw(st.integers(0, n - 1))
         kind = draw(st.sampled_from(["doc", "doc", "doc", "anchor", "anchor", "label", "file", "path", "project", "project_anchor",
-                                     "missing_doc", "missing_anchor", "missing_label", "noext"]))
+                                     "missing_doc", "missing_anchor", "missing_label", "noext", "noext", "missing_dir"]))
         tgt = draw(st.integers(0, n - 1))
         lk = {"src": src, "kind": kind, "tgt": tgt, "text": draw(st.sampled_from(TEXT_FORMS + ["empty", "empty"])),
               "style": draw(st.sampled_from(["rel", "rel", "dot", "abs"])), "head": draw(st.integers(0, 3)),
@@ -150,6 +151,15 @@ def build_files(case):
         elif kind == "missing_doc":
             dest = rel(s["name"], f"nosuch{k}.md", lk["style"])
             rec.update(expect="missing", names=[f"nosuch{k}"])
+        elif kind == "missing_dir":
+            # the directory of the target document, when no document has that name: not a file, not a document
+            tdir = posixpath.dirname(t["name"])
+            if not tdir or tdir in names or posixpath.dirname(s["name"]).startswith(tdir):
+                dest = rel(s["name"], f"nosuch{k}.md", lk["style"])
+                rec.update(expect="missing", names=[f"nosuch{k}"])
+            else:
+                dest = rel(s["name"], tdir, lk["style"])
+                rec.update(expect="missing", names=[f"'{dest}'"], by_line=True)
         elif kind == "missing_anchor":
             dest = rel(s["name"], tpath, lk["style"]) + f"#no-such-anchor-{k}"
             rec.update(expect="missing", names=[f"no-such-anchor-{k}"], target_doc=t["name"])
@@ -221,7 +231,8 @@ def check_case(acc, case) -> list[dict]:
                     continue
                 a = para.find("a")
                 if rec["expect"] == "missing":
-                    hits = [w for w in wl if "[myst.xref_missing]" in w and any(re.search(re.escape(n) + r"(?!\d)", w) for n in rec["names"])]
+                    hits = [w for w in wl if "[myst.xref_missing]" in w and any(re.search(re.escape(n) + r"(?!\d)", w) for n in rec["names"])
+                            and (not rec.get("by_line") or w.startswith(os.path.join(src_root, rec["src"] + ".md") + f":{rec['line']}:"))]
                     if len(hits) != 1:
                         vs.append(mk(f"C12:missing-target-warning-count:{rec['kind']}", case, {**info, "count": 1}, hits[:4]))
                     elif not hits[0].startswith(os.path.join(src_root, rec["src"] + ".md") + f":{rec['line']}:"):
@@ -318,7 +329,7 @@ def sub_projects(acc, shard, nshards, tier, seed):
 
 
 def sub_each(acc, shard, nshards, tier, seed):
-    """A fixed 7-document tree (root, a/, a/b/c/, d/e/; two base names occur in two directories, one title three times): every link kind x path style x text form from every source
+    """A fixed 9-document tree (root, a/, a/b/c/, d/e/; two documents named like a directory beside them; two base names occur in two directories, one title three times): every link kind x path style x text form from every source
     document to a target in another directory (exhaustive over the spelling table)."""
     docs = [{"name": "doc0", "title": "Title D0", "heads": ["Section one D0", "Common heading", "Common heading", "Common heading"], "label": "lab-d0", "label_head": 1},
             {"name": "a/doc1", "title": "Title D1", "heads": ["Section one D1", "Section one D1", "Section one D1"], "label": "lab-d1", "label_head": 1},
@@ -326,9 +337,13 @@ def sub_each(acc, shard, nshards, tier, seed):
             {"name": "d/e/doc1", "title": "Title E1", "heads": ["Section one E1", "Other E1"], "label": "lab-e1", "label_head": 1},
             {"name": "a/b/c/doc2", "title": "Title D2", "heads": ["Section one D2", "Other D2", "Common heading"], "label": "lab-d2", "label_head": 0},
             {"name": "d/e/doc3", "title": "Title D3", "heads": ["Common heading", "Third D3"], "label": "lab-d3", "label_head": 0},
-            {"name": "a/doc4", "title": "Title D4", "heads": ["Section one D4", "Other D4"], "label": "lab-d4", "label_head": 1}]
+            {"name": "a/doc4", "title": "Title D4", "heads": ["Section one D4", "Other D4"], "label": "lab-d4", "label_head": 1},
+            # two documents whose names are also directories ('d.md' beside 'd/', 'a/b.md' beside 'a/b/')
+            {"name": "d", "title": "Title Dd", "heads": ["Section one Dd", "Other Dd"], "label": "lab-dd", "label_head": 1},
+            {"name": "a/b", "title": "Title Ab", "heads": ["Section one Ab", "Common heading"], "label": "lab-ab", "label_head": 0}]
     files = [{"path": "data0.txt", "content": "payload 0\n"}, {"path": "a/b/data1.txt", "content": "payload 1\n"}, {"path": "d/data2.txt", "content": "payload 2\n"}]
-    kinds = ["doc", "anchor", "label", "file", "path", "project", "project_anchor", "missing_doc", "missing_anchor", "missing_label", "noext"]
+    kinds = ["doc", "anchor", "label", "file", "path", "project", "project_anchor", "missing_doc", "missing_anchor", "missing_label", "noext",
+             "missing_dir"]
     kn = known()
     i = 0
     for src in range(len(docs)):
